@@ -74,6 +74,7 @@ using overflow_checker = conditional_t<
 struct to_integer_options {
     bool skip_whitespace = true;
     bool check_overflow  = true;
+    bool allow_plus_sign = true;
 };
 
 enum struct to_integer_error : unsigned char {
@@ -124,6 +125,16 @@ template <integral Int, to_integer_options Options = to_integer_options{}>
             positive = false;
             if (++pos == length) {
                 // minus "-" was last character in string
+                return makeError(to_integer_error::invalid_input);
+            }
+        }
+    }
+
+    // optional plus
+    if constexpr (Options.allow_plus_sign) {
+        if (positive and str[pos] == '+') {
+            if (++pos == length) {
+                // plus "+" was last character in string
                 return makeError(to_integer_error::invalid_input);
             }
         }
